@@ -255,6 +255,11 @@ class SamplerCore:
 
         # Add sampler metadata
         d["random_state"] = self.config.random_state
+        # Position of the random stream of a seeded run, so that a resumed run
+        # continues it instead of starting it over (see load_sampler_state)
+        d["rng_state"] = (
+            np.random.get_state() if self.config.random_state is not None else None
+        )
         d["n_total"] = getattr(self, "n_total", None)
         d["logz_err"] = getattr(self, "logz_err", None)
 
@@ -321,9 +326,16 @@ class SamplerCore:
         if "logz_err" in d:
             self.logz_err = d["logz_err"]
 
-        # Set random seed
+        # Seeded runs continue the random stream of the run that wrote the
+        # checkpoint. Re-seeding from random_state would start the stream over:
+        # the resumed run would redraw the innovations of the first iterations
+        # (resuming during warm-up drew the first prior batch a second time).
+        # Checkpoints without a stored stream position can only be re-seeded.
         if "random_state" in d and d["random_state"] is not None:
-            np.random.seed(d["random_state"])
+            if d.get("rng_state") is not None:
+                np.random.set_state(d["rng_state"])
+            else:
+                np.random.seed(d["random_state"])
 
     def _log_like(self, x):
         """Compute log likelihood (replaces Sampler._log_like - 54 lines)."""
@@ -388,7 +400,13 @@ class SamplerCore:
         """Initialize fresh run (replaces part of Sampler.run)."""
         # Seed the run from the user's random_state so that equal seeds give
         # identical runs regardless of what was drawn before in this process.
-        if self.config.random_state is not None:
+        # (only when nothing has been sampled yet: a further run() on a used
+        # sampler continues from its history and must continue the stream too,
+        # otherwise it would draw the first run's innovations a second time)
+        if (
+            self.config.random_state is not None
+            and self.state.get_history_length() == 0
+        ):
             np.random.seed(self.config.random_state)
         self.state.set_current("iter", 0)
         self.state.set_current("calls", 0)
